@@ -155,7 +155,7 @@ def judge(ctx, case):
                  f"(one column per {'level' if levels is not None else 'part'})", "shape")
     elif got.reshape(len(frame), -1).shape != want_arr.reshape(len(frame), -1).shape or \
             not np.allclose(got.reshape(len(frame), -1).astype(float), want_arr.reshape(len(frame), -1).astype(float), rtol=0, atol=0):
-        ctx.fail("response", full, f"{formula!r}: response matrix {got.squeeze()[:6].tolist()}... differs from {np.asarray(want).squeeze()[:6].tolist()}...",
+        ctx.fail("response", full, f"{formula!r}: response matrix {got.reshape(-1)[:6].tolist()}... differs from {want_arr.reshape(-1)[:6].tolist()}...",
                  resp.split("(")[0].split("[")[0])
     if levels is not None:
         if dm.response.levels is None or [str(l) for l in dm.response.levels] != [str(l) for l in levels]:
